@@ -1,4 +1,5 @@
 """Per-property configuration of the check (which extra analyses run, assumptions, bounded parts)."""
+from . import extras
 
 TERMINATION_PROPS = {'C08'}
 
@@ -11,5 +12,20 @@ PROPS = {
         ],
         'trusted_base': [],
         'explanation': 'X.690 identifier/length octet framing: skip_tag, decode_length, decode_full_length against tlv spec',
+    },
+    'C18': {
+        'level': 'proof',
+        'extra': [('pyvc-own', extras.frame_check)],
+        'needs_contracts': False,
+        'assumptions': [
+            'CPython builtins used by the codecs (json, xml.etree, struct, binascii, datetime) are re-entrant and do not '
+            'keep state between calls',
+            'reading shared immutable objects from several threads is safe',
+            'method resolution is by name within a codec family (conservative); receiver types are not inferred',
+            'frame contracts (which parameters are per-call objects) are those of pyvc/own.py FrameSpec',
+        ],
+        'trusted_base': ['pyvc-own frame checker (pyvc/own.py)'],
+        'explanation': 'every write site in every function reachable from encode/decode is rooted in an object created by '
+                       'the call or in an owned per-call parameter; hence calls are pure functions of their arguments',
     },
 }
